@@ -1,3 +1,3 @@
 # Harnesses that passed unchanged-tree sweeps (and whose sensitivity runs are recorded in props/Cnn/SENSITIVITY.md).
 # MANIFEST.json claims exactly these; setup.sh pre-builds exactly these.
-READY = ["C01", "C02", "C03", "C04", "C05", "C06", "C07", "C08", "C09", "C12", "C13", "C14", "C15", "C16", "C17", "C18", "C20"]
+READY = ["C%02d" % i for i in range(1, 21)]
